@@ -231,3 +231,479 @@ def gen_ops(rng, nops, permissive=False, with_clone=True):
         for o in opts[:2]:
             ops.append("maybe_clone_an_option_into_selectedcontent %d" % o)
     return ops
+
+
+# ---------------------------------------------------------------------- document generators
+GENERAL = ["<p>", "</p>", "<div>", "</div>", "<b>", "</b>", "<i>", "</i>", "<a href=x>", "</a>", "<span id=s>", "</span>",
+           "text", "x y", " ", "\n", "<!--c-->", "&amp;", "<br>", "<ul><li>", "</li>", "</ul>", "<h1>", "</h1>", "<nobr>",
+           "</nobr>", "<em>", "</em>", "<svg><g>", "</g></svg>", "<math><mi>", "</mi></math>", "<pre>\n", "</pre>", "<form>",
+           "</form>", "<input>", "<button>", "</button>", "<script>a<b</script>", "<style>p{}</style>",
+           "<textarea>t</textarea>", "<title>T</title>", "<!DOCTYPE html>", "<html lang=en>", "<body class=c>", "<head>",
+           "</head>", "</body>", "</html>", "<noscript>", "</noscript>", "<font color=r>", "</font>", "<u>", "</u>",
+           "<math><annotation-xml encoding=text/html><p>", "</annotation-xml></math>", "<svg><foreignObject><div>",
+           "</foreignObject></svg>", "\u00e9", "<img src=i a=1 a=2>", "<marquee>", "<object>", "</object>", "<dd>", "<dt>"]
+TABLE = ["<table>", "</table>", "<tr>", "</tr>", "<td>", "</td>", "<th>", "<tbody>", "</tbody>", "<thead>", "<tfoot>",
+         "<caption>", "</caption>", "<colgroup>", "<col>", "foster", " ", "<b>", "</b>", "<input type=hidden>", "<input>",
+         "<form>", "<select>", "<template>", "</template>", "<style>x</style>", "<script></script>", "<a>", "<p>", "x",
+         "<table>", "<div>", "<!--t-->", "<i>"]
+ADOPT = ["<b>", "<i>", "<a href=1>", "<a>", "<em>", "<u>", "<font size=1>", "<nobr>", "<s>", "<strong>", "<code>", "<tt>",
+         "</b>", "</i>", "</a>", "</em>", "</u>", "</font>", "</nobr>", "</s>", "</strong>", "<p>", "</p>", "<div>", "</div>",
+         "x", "y", " ", "<table>", "<td>", "</table>", "<li>", "<button>", "<address>", "<blockquote>", "<h2>", "</h2>",
+         "<applet>", "</applet>"]
+SELECT = ["<select>", "<select multiple>", "</select>", "<option>", "<option selected>", "<option selected id=o>", "</option>",
+          "<optgroup>", "</optgroup>", "<button>", "</button>", "<selectedcontent>", "</selectedcontent>", "<div>", "</div>",
+          "<span>", "</span>", "A", "<b>c</b>", "<hr>", "<datalist>", "</datalist>", "<img src=i>", "<i>", "</i>", "<template>",
+          "</template>", "<svg><g></g></svg>", "<input>", "<p>", "text", "<selectedcontent>old</selectedcontent>",
+          "<selectedcontent><b>old</b></selectedcontent>", "<option selected>S<i>t</i>u</option>"]
+TEMPLATE = ["<template>", "</template>", "<template>", "</template>", "<tr>", "<td>", "x", "<div>", "</div>", "<table>",
+            "</table>", "<p>", "<b>", "</b>", " ", "<!--c-->", "<select>", "<option>", "<col>", "<body>", "<html a=1>",
+            "<frameset>", "<script></script>", "<caption>", "<tbody>", "<head>"]
+DUP = ["<html a=1 b=2>", "<html b=9 c=3>", "<head>", "</head>", "<body x=1>", "<body x=2 y=3>", "<body z>", "x", "<p>", "</body>",
+       "</html>", "<frameset>", "</frameset>", "<html>", " ", "<!--c-->", "<div>", "<body y=4 onload=f>", "<noframes>",
+       "<template>", "</template>"]
+XML = ["<a>", "</a>", "<b x=\"1\">", "</b>", "<c y='2' z='3'/>", "<?pi d?>", "<!--c-->", "text", " ", "<![CDATA[x<y]]>",
+       "<!DOCTYPE a>", "<p:q xmlns:p=\"u\">", "</p:q>", "&amp;", "&#x41;", "<d xmlns=\"n\">", "</d>", "<e/>", "\n", "</>", "<a",
+       "<?xml version=\"1.0\"?>", "t&lt;u"]
+POOLS = {"general": GENERAL, "table": TABLE, "adoption": ADOPT, "select": SELECT, "template": TEMPLATE, "dup": DUP}
+FRAG_CTX = ["div", "table", "tr", "tbody", "td", "select", "template", "body", "html", "title", "textarea", "colgroup", "caption"]
+
+
+def gen_soup(rng, theme, n):
+    pool = POOLS[theme]
+    return "".join(rng.choice(pool) if rng.random() < 0.8 else rng.choice(GENERAL) for _ in range(n))
+
+
+def gen_select_structured(rng):
+    """customizable-select shapes: a selectedcontent somewhere below the select, options with rich content"""
+    def wrap(inner, depth):
+        for _ in range(depth):
+            t = rng.choice(["div", "span", "button"])
+            inner = "<%s>%s</%s>" % (t, inner, t)
+        return inner
+    parts = []
+    nsc = rng.choice([0, 1, 1, 1, 2, 3])
+    for _ in range(nsc):
+        parts.append(wrap("<selectedcontent>%s</selectedcontent>" % rng.choice(["", "", "old", "<b>o</b>"]), rng.randint(0, 3)))
+    nopt = rng.randint(1, 4)
+    for _ in range(nopt):
+        content = "".join(rng.choice(["A", "<b>c</b>", "<i>d<u>e</u></i>", " ", "<img src=i>", "x", "<span id=s>t</span>"])
+                          for _ in range(rng.randint(0, 4)))
+        o = "<option%s>%s%s" % (rng.choice(["", " selected", " selected", " selected=selected value=v"]), content,
+                                rng.choice(["</option>", "</option>", ""]))
+        if rng.random() < 0.25:
+            o = "<optgroup>%s</optgroup>" % o
+        parts.append(o)
+    rng.shuffle(parts)
+    if rng.random() < 0.5 and nsc:
+        # the common authoring order: button/selectedcontent first
+        parts.sort(key=lambda p: 0 if "selectedcontent" in p else 1)
+    return "%s<select%s>%s</select>%s" % (rng.choice(["", "<p>", "<!DOCTYPE html>"]), rng.choice(["", "", "", " multiple"]),
+                                          "".join(parts), rng.choice(["", "x", "</p>"]))
+
+
+def gen_parse_cases(rng, n):
+    cases = []
+    for i in range(n):
+        r = rng.random()
+        if r < 0.12:
+            cases.append("P xml - " + esc("".join(rng.choice(XML) for _ in range(rng.randint(1, 14)))))
+            continue
+        if r < 0.27:
+            doc = gen_select_structured(rng)
+        else:
+            theme = rng.choice(["general", "table", "table", "adoption", "adoption", "select", "select", "template", "dup"])
+            doc = gen_soup(rng, theme, rng.randint(2, 22))
+        flags = "s" if rng.random() < 0.3 else "-"
+        if rng.random() < 0.1:
+            cases.append("P frag %s %s %s" % (esc(rng.choice(FRAG_CTX)), flags, esc(doc)))
+        else:
+            cases.append("P html %s %s" % (flags, esc(doc)))
+    return cases
+
+
+# ---------------------------------------------------------------------- canonical trees (TREE ... text of the drivers)
+TOK = re.compile(r'"[^"]*"|\(|\)|[^\s()"]+')
+
+
+def parse_forest(text):
+    toks = TOK.findall(text)
+    pos = [0]
+
+    def nxt():
+        t = toks[pos[0]]
+        pos[0] += 1
+        return t
+
+    def node():
+        assert nxt() == "("
+        kind = nxt()
+        nd = {"kind": kind, "id": None, "f": [], "tmpl": None, "kids": []}
+        if kind == "doc":
+            nd["id"] = nxt()
+        elif kind == "doctype":
+            nd["f"] = [nxt(), nxt(), nxt()]
+        elif kind == "text":
+            nd["f"] = [nxt()]
+        elif kind == "comment":
+            nd["id"] = nxt()
+            nd["f"] = [nxt()]
+        elif kind == "pi":
+            nd["id"] = nxt()
+            nd["f"] = [nxt(), nxt()]
+        elif kind == "elem":
+            nd["id"] = nxt()
+            nd["name"] = [nxt(), nxt(), nxt()]
+            nd["mip"] = nxt()
+            k = int(nxt())
+            nd["attrs"] = [[nxt(), nxt(), nxt(), nxt()] for _ in range(k)]
+            if toks[pos[0]] == "tmpl":
+                nxt()
+                nd["tmpl"] = node()
+        else:
+            raise ValueError("bad node kind " + kind)
+        while toks[pos[0]] == "(":
+            nd["kids"].append(node())
+        assert nxt() == ")"
+        return nd
+
+    roots = []
+    while pos[0] < len(toks):
+        roots.append(node())
+    return roots
+
+
+def ser_expected(nd, include):
+    """the Serializer calls `Serialize for SerializableHandle` must make: pre-order, each node once"""
+    out = []
+
+    def go(n):
+        k = n["kind"]
+        if k == "elem":
+            q = " ".join(n["name"])
+            at = "0" if not n["attrs"] else "%d %s" % (len(n["attrs"]), " ".join(" ".join(a) for a in n["attrs"]))
+            out.append("S %s %s" % (q, at))
+            for c in n["kids"]:
+                go(c)
+            out.append("E " + q)
+        elif k == "text":
+            out.append("T " + n["f"][0])
+        elif k == "comment":
+            out.append("C " + n["f"][0])
+        elif k == "doctype":
+            out.append("D " + n["f"][0])
+        elif k == "pi":
+            out.append("P %s %s" % (n["f"][0], n["f"][1]))
+        else:
+            raise ValueError("document node below the root")
+    if include:
+        go(nd)
+    else:
+        for c in nd["kids"]:
+            go(c)
+    return " ".join(out)
+
+
+def is_sc(nd):
+    return nd["kind"] == "elem" and nd["name"][1] == esc(HTML) and nd["name"][2] == esc("selectedcontent")
+
+
+def strip_sc(nd):
+    """the tree with the children of every HTML selectedcontent element forgotten"""
+    c = dict(nd)
+    c["kids"] = [] if is_sc(nd) else [strip_sc(k) for k in nd["kids"]]
+    if nd["tmpl"] is not None:
+        c["tmpl"] = strip_sc(nd["tmpl"])
+    return c
+
+
+def node_at(roots, path):
+    """path of a LINKS finding: root index, then child indexes / t for template contents; returns the chain of nodes"""
+    parts = path.split(".")
+    nd = roots[int(parts[0])]
+    chain = [nd]
+    for p in parts[1:]:
+        nd = nd["tmpl"] if p == "t" else nd["kids"][int(p)]
+        chain.append(nd)
+    return chain
+
+
+def find_by_id(roots, hid):
+    st = list(roots)
+    while st:
+        n = st.pop()
+        if n["id"] == hid:
+            return n
+        st.extend(n["kids"])
+        if n["tmpl"] is not None:
+            st.append(n["tmpl"])
+    return None
+
+
+def split_snapshot(snap):
+    """'TREE .. | LINKS .. | SER .. | Q ..' -> dict"""
+    d = {}
+    for part in snap.split(" | "):
+        k, _, v = part.partition(" ")
+        d[k] = v
+    return d
+
+
+def with_dumps(rng, ops, k=3):
+    ops = list(ops)
+    if len(ops) > 2:
+        for _ in range(k):
+            ops.insert(rng.randrange(1, len(ops)), "#dump")
+    return ops
+
+
+OPNAMES_RARE = ("append_before_sibling", "append_based_on_parent_node", "reparent_children", "add_attrs_if_missing",
+                "get_template_contents", "remove_from_parent", "maybe_clone_an_option_into_selectedcontent")
+
+WITNESS = ('create_element 1 - {h} "select" - 0 ; append 0 n 1 ; create_element 2 - {h} "button" - 0 ; append 1 n 2 ; '
+           'create_element 3 - {h} "selectedcontent" - 0 ; append 2 n 3 ; '
+           'create_element 4 - {h} "option" - 1 - "" "selected" "" ; append 1 n 4 ; append 4 t "A" ; '
+           'create_element 5 - {h} "b" - 0 ; append 4 n 5 ; append 5 t "c" ; '
+           'maybe_clone_an_option_into_selectedcontent 4').format(h=esc(HTML))
+
+
+def run(ck):
+    corpus = os.path.join(ROOT, "corpus", "c20.txt")
+    replay_one = None
+    if ck.replay:
+        rp = json.load(open(ck.replay))
+        replay_one = rp.get("case")
+    proofs_ok = ck.coq_props(extra_targets=["Extract/ExtractRcDom.vo"])
+    bindir = ck.cargo_build(["rcdom"])
+    impl = os.path.join(bindir, "rcdom")
+    model = ck.ocaml_build("rcdom_model", "rcdom_model.ml", "rcdom_driver.ml")
+
+    # which variant of the selectedcontent search does the code under test have?  (behavioural probe)
+    probe = ck.run_lines(impl, [], ["R " + WITNESS], shards=1)[0]
+    sc_filled = '"selectedcontent" - 0 (' in probe
+    margs = ["--fixed"] if sc_filled else []
+    ck.notes.append("selectedcontent search variant under test: %s" % ("node.data (repaired)" if sc_filled else "self.data (pinned commit)"))
+
+    rng = ck.rng
+    parse_cases, rand_strict, rand_perm = [], [], []
+    if replay_one is not None:
+        if replay_one.startswith("P "):
+            parse_cases = [replay_one]
+        else:
+            rand_strict = [replay_one[2:].split(" ; ") if replay_one.startswith("R ") else replay_one.split(" ; ")]
+    else:
+        if os.path.exists(corpus):
+            for l in open(corpus):
+                l = l.strip()
+                if l.startswith("P "):
+                    parse_cases.append(l)
+                elif l.startswith("R "):
+                    rand_strict.append(l[2:].split(" ; "))
+        n_parse, n_strict, n_perm = (10000, 8000, 4000) if ck.quick else (150000, 120000, 60000)
+        parse_cases += gen_parse_cases(rng, n_parse)
+        rand_strict += [gen_ops(rng, rng.randint(3, 45), permissive=False) for _ in range(n_strict)]
+        rand_perm = [gen_ops(rng, rng.randint(3, 45), permissive=True) for _ in range(n_perm)]
+
+    # 1. parse with html5ever / xml5ever into TraceSink<RcDom>
+    parse_out = ck.run_lines(impl, [], parse_cases)
+    replay_cases = []      # (kind, origin case, ops with dumps)
+    parse_info = []
+    for c, o in zip(parse_cases, parse_out):
+        if not o.startswith("TRACE "):
+            ck.violation("parsing into TraceSink<RcDom> did not complete: " + o[:200],
+                         {"kind": "failing-input", "case": c, "impl": o[:2000]}, case_class="parse-panic")
+            continue
+        tr, _, rest = o[len("TRACE "):].partition(" |T| ")
+        snap, _, plain = rest.partition(" |X| ")
+        ops = [x for x in tr.split(" ; ") if x]
+        if plain != "plain=same":
+            ck.broken.append("TraceSink perturbs the parse: RcDom alone gives a different tree for %r" % c)
+        replay_cases.append(("parse", c, with_dumps(rng, ops), snap))
+    for ops in rand_strict:
+        replay_cases.append(("strict", None, with_dumps(rng, ops, 2) if replay_one is None else ops, None))
+    for ops in rand_perm:
+        replay_cases.append(("permissive", None, with_dumps(rng, ops, 1), None))
+
+    lines = ["R " + " ; ".join(rc[2]) for rc in replay_cases]
+    impl_out = ck.run_lines(impl, [], lines)
+    model_out = ck.run_lines(model, margs, lines)
+
+    stats = {"parse": 0, "strict": 0, "permissive": 0, "contract_ok": 0, "contract_bad_parse": 0, "panics": 0,
+             "snapshots_compared": 0, "clone_ops": 0, "nontrivial": 0}
+    ophist = {}
+    disagreements = oracle_fail = 0
+    nontrivial = set()
+    samples = []
+    need_noclone = []       # indexes whose Spec tree differs: decide the class with a second model run
+
+    def record_violation(what, idx, extra, case_class=None):
+        nonlocal oracle_fail
+        kind, origin, ops, _ = replay_cases[idx]
+        oracle_fail += 1
+        payload = {"kind": "failing-input", "case": origin if origin else "R " + " ; ".join(o for o in ops if o != "#dump"),
+                   "ops": [o for o in ops if o != "#dump"]}
+        payload.update(extra)
+        ck.violation(what, payload, case_class=case_class)
+
+    results = []
+    for idx, (rcase, a, b) in enumerate(zip(replay_cases, impl_out, model_out)):
+        kind, origin, ops, parse_snap = rcase
+        stats[kind] += 1
+        for o in ops:
+            k = o.split(" ", 1)[0]
+            ophist[k] = ophist.get(k, 0) + 1
+        if any(o.split(" ", 1)[0] in OPNAMES_RARE for o in ops):
+            nontrivial.add(lines[idx])
+        if b.startswith("MODELERROR") or " ## " not in b:
+            ck.broken.append("model driver failed on %r: %s" % (lines[idx][:300], b[:200]))
+            continue
+        m_snaps, spec, contract = b.split(" ## ")
+        a_norm = re.sub(r"PANIC (\d+) .*", r"PANIC \1", a)
+        stats["snapshots_compared"] += a_norm.count(" || ") + 1
+        if "PANIC" in a_norm:
+            stats["panics"] += 1
+        # correspondence model <-> implementation (every snapshot: tree, links, serialization, quirks, panic site)
+        if a_norm != m_snaps:
+            disagreements += 1
+            if disagreements <= 3:
+                ck.broken.append("correspondence RcModel vs rcdom/lib.rs on %s case %r:\n impl  %s\n model %s" % (
+                    kind, (origin or lines[idx])[:1500], a_norm[:1500], m_snaps[:1500]))
+        final = a_norm.split(" || ")[-1]
+        if kind == "parse" and final != parse_snap:
+            ck.broken.append("replaying the recorded trace does not reproduce the parse: %r" % origin[:500])
+        if kind == "permissive":
+            continue
+        cok = contract == "CONTRACT ok"
+        if not cok:
+            if kind == "parse":
+                stats["contract_bad_parse"] += 1
+                if stats["contract_bad_parse"] <= 3:
+                    ck.notes.append("tree builder stepped outside DomSpec.contract_ok (C05's subject, not judged here): %s on %s" % (contract, origin[:200]))
+            else:
+                ck.notes.append("generator produced a non-contract sequence (%s); skipped" % contract)
+            continue
+        stats["contract_ok"] += 1
+        if final.startswith("PANIC"):
+            record_violation("RcDom panics on a contract-respecting operation sequence: " + a[-200:], idx, {"impl": a[-2000:]})
+            continue
+        sn = split_snapshot(final)
+        spec_tree = split_snapshot(spec[len("SPEC "):])["TREE"]
+        spec_q = split_snapshot(spec[len("SPEC "):])["Q"]
+        try:
+            roots = parse_forest(sn["TREE"])
+        except Exception as e:      # noqa
+            ck.broken.append("cannot parse the canonical tree of %r: %s" % (lines[idx][:200], e))
+            continue
+        # oracle 1: serialization = pre-order of the tree, each node once
+        try:
+            exp = " / ".join(ser_expected(r, i > 0) for i, r in enumerate(roots))
+        except ValueError:
+            exp = None
+        if exp is not None and exp != sn["SER"]:
+            record_violation("Serialize does not visit the tree in document order, each node once", idx,
+                             {"expected_ser": exp[:3000], "observed_ser": sn["SER"][:3000]})
+        # oracle 2: parent links
+        links_bad = sn["LINKS"] != "ok"
+        # oracle 3: tree = abstract DOM
+        tree_bad = sn["TREE"] != spec_tree
+        if sn["Q"] != spec_q:
+            record_violation("quirks mode differs from the specification", idx, {"impl": sn["Q"], "spec": spec_q})
+        if links_bad or tree_bad:
+            need_noclone.append((idx, sn, spec_tree, roots, links_bad, tree_bad))
+        if len(samples) < 3 and kind == "parse":
+            samples.append(origin)
+
+    # classify the failures: second model run without the clone operations
+    if need_noclone:
+        nl = ["R " + " ; ".join(o for o in replay_cases[i][2] if o != "#dump" and not o.startswith("maybe_clone")) for i, *_ in need_noclone]
+        nout = ck.run_lines(model, margs, nl)
+        for (idx, sn, spec_tree, roots, links_bad, tree_bad), nb in zip(need_noclone, nout):
+            ops = replay_cases[idx][2]
+            has_clone = any(o.startswith("maybe_clone") for o in ops)
+            noclone_tree = None
+            if " ## " in nb:
+                noclone_tree = split_snapshot(nb.split(" ## ")[1][len("SPEC "):]).get("TREE")
+            m_final = model_out[idx].split(" ## ")[0].split(" || ")[-1]
+            model_agrees = m_final == re.sub(r"PANIC (\d+) .*", r"PANIC \1", impl_out[idx]).split(" || ")[-1]
+            if tree_bad:
+                cls = None
+                still_bad = True
+                try:
+                    sroots = parse_forest(spec_tree)
+                    # nodes the clone op removed from a selectedcontent are parentless roots in the abstract DOM; in
+                    # RcDom they either are still children of the selectedcontent (nothing was cloned) or keep a stale
+                    # parent link to it (reported by the parent-link oracle): not a difference of the trees
+                    under_sc = set()
+
+                    def collect(n, inside):
+                        if inside and n["id"] not in (None, "-"):
+                            under_sc.add(n["id"])
+                        for k in n["kids"]:
+                            collect(k, inside or is_sc(n))
+                        if n["tmpl"] is not None:
+                            collect(n["tmpl"], inside)
+                    for r in roots:
+                        collect(r, False)
+                    for f in sn["LINKS"].split():
+                        parts = f.split(":")
+                        if parts[0] == "U" and len(parts) == 3 and parts[2].startswith("h"):
+                            par = find_by_id(roots, parts[2][1:])
+                            if par is not None and is_sc(par):
+                                under_sc.add(parts[1][1:])
+                    sroots = [r for i, r in enumerate(sroots) if i == 0 or r["id"] not in under_sc]
+                    still_bad = roots != sroots
+                    confined = [strip_sc(r) for r in roots] == [strip_sc(r) for r in sroots]
+                except Exception:       # noqa
+                    confined = False
+                if has_clone and confined and sn["TREE"] == noclone_tree:
+                    cls = KF_SELF_DATA
+                elif has_clone and confined and model_agrees:
+                    cls = KF_BFS
+                if still_bad:
+                    record_violation("RcDom's tree differs from the abstract DOM computed from the same operations", idx,
+                                     {"impl_tree": sn["TREE"][:4000], "spec_tree": spec_tree[:4000]}, case_class=cls)
+            if links_bad:
+                cls = None
+                try:
+                    ok = has_clone and model_agrees
+                    for f in sn["LINKS"].split():
+                        parts = f.split(":")
+                        if parts[0] == "D":
+                            chain = node_at(roots, parts[1])
+                            ok = ok and any(is_sc(n) for n in chain[:-1])
+                        elif parts[0] == "U":
+                            par = find_by_id(roots, parts[2][1:]) if parts[2].startswith("h") else None
+                            ok = ok and par is not None and is_sc(par)
+                        else:
+                            ok = False
+                    if ok:
+                        cls = KF_CLONE_PARENT
+                except Exception:       # noqa
+                    cls = None
+                record_violation("a parent link does not name the node whose child list contains the node: " + sn["LINKS"][:300],
+                                 idx, {"links": sn["LINKS"][:3000], "impl_tree": sn["TREE"][:4000]}, case_class=cls)
+
+    stats["clone_ops"] = ophist.get("maybe_clone_an_option_into_selectedcontent", 0)
+    ck.cov.update({
+        "evaluations": len(replay_cases), "distinct_nontrivial": len(nontrivial),
+        "rule": "op traces replayed into RcDom and into the extracted RcModel/DomSpec: traces recorded from html5ever/xml5ever "
+                "parses of structured tag soup (tables/foster parenting, adoption agency, select/option/selectedcontent, "
+                "templates, duplicate html/body, fragments, XML) + random contract-respecting op sequences + random "
+                "permissive sequences (correspondence only); non-trivial = trace containing at least one of "
+                + ", ".join(OPNAMES_RARE),
+        "samples": samples, "op_histogram": ophist, "case_counts": stats,
+        "correspondence_disagreements": disagreements, "oracle_failures": oracle_fail,
+        "explanation": "Props/C20.v: RcModel refines DomSpec for all contract-respecting op sequences outside the "
+                       "option->selectedcontent finding, parent-link/NoDup/acyclicity invariant, Serialize = pre-order; the "
+                       "model is tied to rcdom/lib.rs by replaying the same traces (every intermediate #dump snapshot and the "
+                       "final one: tree, parent-link findings, Serializer calls, quirks mode, panic site); the oracle compares "
+                       "RcDom's own tree with the DomSpec tree, checks parent links and the Serializer call order.",
+    })
+    return ck.finish(
+        trusted=["Coq 8.16.1 kernel (coqc; vm_compute for the concrete witnesses)",
+                 "Extraction (ExtrOcamlBasic only) + ocamlopt 4.13.1",
+                 "ocaml/rcdom_driver.ml, ocaml/conv.ml, harness/src/tracesink.rs, harness/src/bin/rcdom.rs, lib/checks/c20.py",
+                 "DomSpec.apply as the reading of the TreeSink documentation (incl. WHATWG 'maybe clone an option into selectedcontent')",
+                 "Rc/Weak reference counting and Drop are not modelled (a weak parent link is assumed to upgrade)"],
+        assumptions=["operation sequences respect DomSpec.contract_ok (what the tree builders do; C05 checks that side)",
+                     "template contents are a separate fragment which Serialize does not enter (reading decision)",
+                     "attribute-name equality is QualName equality (prefix, namespace, local), as RcDom's HashSet uses"])
